@@ -4,7 +4,7 @@ import Gallia.Model.Parse
 
   The table `transportTable` is a hand copy of the live registry (`gallia.plugins.plugin.load_transports()`), regenerated on
   every run into `Gen/C20Tables.lean` and compared (`all_schemes_modelled`): per scheme whether `connect` calls
-  `check_scheme`, whether a missing host is refused, the default port, whether `.path` / `.port` is used, and the fields of
+  `check_scheme`, whether a missing host is refused, the default port, whether `.hostname` / `.path` / `.port` is used, and the fields of
   the pydantic model built by `Config(**target.qs_flat)` with the kind of reader each field has:
 
     autoInt   a `field_validator(..., mode="before")` that returns `auto_int(v)` (`int(v, 0)`: all bases)
@@ -35,6 +35,7 @@ structure Transport where
   checksScheme : Bool
   needsHost : Bool
   defaultPort : Option Nat
+  usesHost : Bool
   usesPath : Bool
   usesPort : Bool
   fields : List FieldSpec
@@ -48,26 +49,26 @@ def schemeList : List Str :=
   ["tcp".toList, "tcp-lines".toList, "doip".toList, "hsfz".toList, "unix".toList, "unix-lines".toList, "isotp".toList,
    "can-raw".toList]
 
-def canRawT : Transport := ⟨"can-raw".toList, true, true, none, false, false,
+def canRawT : Transport := ⟨"can-raw".toList, true, true, none, true, false, false,
   [⟨kIsExtended, .bool, false⟩, ⟨kIsFd, .bool, false⟩, ⟨kDstId, .autoInt, false⟩]⟩
 
-def doipT : Transport := ⟨"doip".toList, true, true, some 13400, false, true,
+def doipT : Transport := ⟨"doip".toList, true, true, some 13400, true, false, true,
   [⟨kSrcAddr, .autoInt, true⟩, ⟨kTargetAddr, .autoInt, true⟩, ⟨kActivationType, .autoInt, false⟩,
    ⟨kProtocolVersion, .autoInt, false⟩]⟩
 
 /-- `HSFZTransport.connect` does not call `check_scheme` -/
-def hsfzT : Transport := ⟨"hsfz".toList, false, true, some 6801, false, true,
+def hsfzT : Transport := ⟨"hsfz".toList, false, true, some 6801, true, false, true,
   [⟨kSrcAddr, .autoInt, true⟩, ⟨kDstAddr, .autoInt, true⟩, ⟨kAckTimeout, .laxInt, false⟩]⟩
 
-def isotpT : Transport := ⟨"isotp".toList, true, true, none, false, false,
+def isotpT : Transport := ⟨"isotp".toList, true, true, none, true, false, false,
   [⟨kSrcAddr, .autoInt, true⟩, ⟨kDstAddr, .autoInt, true⟩, ⟨kIsExtended, .bool, false⟩, ⟨kIsFd, .bool, false⟩,
    ⟨kFrameTxtime, .laxInt, false⟩, ⟨kExtAddress, .autoInt, false⟩, ⟨kRxExtAddress, .autoInt, false⟩,
    ⟨kTxPadding, .autoInt, false⟩, ⟨kRxPadding, .autoInt, false⟩, ⟨kTxDl, .laxInt, false⟩]⟩
 
-def tcpT : Transport := ⟨"tcp".toList, true, false, none, false, true, []⟩
-def tcpLinesT : Transport := ⟨"tcp-lines".toList, true, false, none, false, true, []⟩
-def unixT : Transport := ⟨"unix".toList, true, false, none, true, false, []⟩
-def unixLinesT : Transport := ⟨"unix-lines".toList, true, false, none, true, false, []⟩
+def tcpT : Transport := ⟨"tcp".toList, true, false, none, true, false, true, []⟩
+def tcpLinesT : Transport := ⟨"tcp-lines".toList, true, false, none, true, false, true, []⟩
+def unixT : Transport := ⟨"unix".toList, true, false, none, false, true, false, []⟩
+def unixLinesT : Transport := ⟨"unix-lines".toList, true, false, none, false, true, false, []⟩
 
 /-- the registry, ordered by scheme -/
 def transportTable : List Transport := [canRawT, doipT, hsfzT, isotpT, tcpT, tcpLinesT, unixT, unixLinesT]
@@ -121,6 +122,6 @@ def connectPlan (t : Transport) (u : Uri) : Except ConnErr Plan := do
     else pure none
   match cfgOf t.fields u.args with
   | none => throw .badConfig
-  | some cfg => pure ⟨u.host, port, if t.usesPath then some u.path else none, cfg⟩
+  | some cfg => pure ⟨if t.usesHost then u.host else none, port, if t.usesPath then some u.path else none, cfg⟩
 
 end Gallia.Parse
